@@ -26,28 +26,35 @@ Theorem C25_file_exit pm ug nomsg nofail f fr :
 Proof. intros H Hi. exact (proj2 (proj2 (check_file_spec pm ug nomsg nofail f fr H Hi))). Qed.
 Print Assumptions C25_file_exit.
 
-(* single executor, any number of files + whole-program findings: the process status is
-   --error-exitcode iff a shown finding is not matched by --exitcode-suppressions, or an
-   unmatchedSuppression finding was emitted; else 0 *)
+(* single executor, any number of files + whole-program findings, FULL STRENGTH (after fix
+   7b7622c): the process status is --error-exitcode iff some shown finding -- file-level,
+   whole-program or unmatchedSuppression (all_shown) -- is not matched by an
+   --exitcode-suppressions entry; else 0. The checkers summary is not among them. *)
 Theorem C25_single_status pm cfg nomsg nofail fs wp o :
   whole_run pm None cfg nomsg nofail fs wp = Some o -> Forall (inline_present nomsg) fs ->
-  o_status o = if existsb (not_nofail pm nofail) (o_reported o) || negb (is_nil_list (o_unmatched o))
-               then c_exitcode cfg else 0.
+  o_status o = if existsb (not_nofail pm nofail) (all_shown o) then c_exitcode cfg else 0.
 Proof. exact (single_status_shown pm cfg nomsg nofail fs wp o). Qed.
 Print Assumptions C25_single_status.
 
 (* thread / process executors (files in any fixed order): per-file exit codes are summed;
    a worker's finding counts iff it is forwarded by the worker (local suppressions), not
    matched by --exitcode-suppressions and not matched by a global suppression, i.e. iff the
-   parent shows it (or a duplicate of it) and nofail does not match *)
+   parent shows it (or a duplicate of it) and nofail does not match; unmatchedSuppression
+   findings count iff nofail does not match them *)
 Theorem C25_multi_status pm k cfg nomsg nofail fs wp o :
   whole_run pm (Some k) cfg nomsg nofail fs wp = Some o -> Forall (inline_present nomsg) fs ->
   o_status o = if existsb (fun x => spec_exit pm false nomsg nofail [] (f_msgs x)) fs
                   || spec_exit pm true nomsg nofail [] wp
-                  || negb (is_nil_list (o_unmatched o))
+                  || um_raise pm nofail (o_unmatched o)
                then c_exitcode cfg else 0.
 Proof. exact (whole_run_multi_status pm k cfg nomsg nofail fs wp o). Qed.
 Print Assumptions C25_multi_status.
+
+(* the NofailFilter of check_internal, over any list of emitted findings *)
+Theorem C25_unmatched_fail_spec pm u nofail b :
+  unmatched_fail pm nofail u = Some b -> b = um_raise pm nofail u.
+Proof. exact (unmatched_fail_spec pm u nofail b). Qed.
+Print Assumptions C25_unmatched_fail_spec.
 
 (* --error-exitcode=0 (the default): status 0, every executor *)
 Theorem C25_exit_zero_default pm k cfg nomsg nofail fs wp o :
@@ -55,18 +62,25 @@ Theorem C25_exit_zero_default pm k cfg nomsg nofail fs wp o :
 Proof. exact (status_zero_default pm k cfg nomsg nofail fs wp o). Qed.
 Print Assumptions C25_exit_zero_default.
 
-(* REFUTED for unmatchedSuppression findings: --suppress=memleak (matches nothing),
-   --exitcode-suppressions file with the line `unmatchedSuppression`, --error-exitcode=7,
-   --enable=information, one file without findings: the only finding of the run is the
-   unmatchedSuppression one, it IS matched by the exitcode suppression, the status is 7 *)
-Theorem C25_unmatched_suppression_ignores_nofail_refuted :
+(* the input that refuted the property before fix 7b7622c (--suppress=memleak matching
+   nothing, --exitcode-suppressions with the line `unmatchedSuppression`, --error-exitcode=7,
+   information on, one file without findings): the only finding is the unmatchedSuppression
+   one, it is matched by the exitcode suppression, the status is 0 now ... *)
+Theorem C25_former_witness_honours_nofail :
   exists o,
     whole_run pm_eq None w25_cfg w25_nomsg w25_nofail w25_files [] = Some o
     /\ o_reported o = []
     /\ forallb (fun s => existsb (hides pm_eq true (unmatched_emsg s)) w25_nofail) (o_unmatched o) = true
-    /\ o_status o = 7.
-Proof. exact witness_unmatched_ignores_nofail. Qed.
-Print Assumptions C25_unmatched_suppression_ignores_nofail_refuted.
+    /\ o_unmatched o <> []
+    /\ o_status o = 0.
+Proof. exact witness_unmatched_honours_nofail. Qed.
+Print Assumptions C25_former_witness_honours_nofail.
+
+(* ... and 7 without the exitcode suppression *)
+Theorem C25_unmatched_suppression_raises :
+  exists o, whole_run pm_eq None w25_cfg w25_nomsg [] w25_files [] = Some o /\ o_reported o = [] /\ o_status o = 7.
+Proof. exact witness_unmatched_raises. Qed.
+Print Assumptions C25_unmatched_suppression_raises.
 
 (* premises are inhabited *)
 Example C25_ex_inline_present : Forall (inline_present w25_nomsg) w25_files.
